@@ -58,11 +58,14 @@ claim("C13",
   "default_complete (inside the guard a value that denotes nothing of the kind is rejected with a PropertyError), default_null; unguarded per-kind characterisations conv_int/bool/float_sound+complete "
   "(what the lenient conversions accept is exactly int_meaning/bool_meaning/float_meaning), conv_date/datetime/uuid_sound, conv_enum/litenum/const_sound, conv_union_first; one `_refuted` witness per non-zero "
   "guard class (float_token, string/int/bool lenient, default_dq, nonfinite crash, uuid raw, union_first_match, enum_default_dq). float()/isoparse/UUID are record fields (explicit premises, no axioms). "
+  "Defaults that travel: ref_default_revalidated / ref_default_not_dropped / ref_default_sound / ref_default_complete on RefDefault.v (model of _property_from_ref: the default declared next to a $ref or a "
+  "single-$ref allOf/oneOf/anyOf wrapper is convert_value of the REFERENCED kind on the raw value, a non-null value such as 0, 0.0, false or the empty string is never dropped - conv_ok_none) and merge_default_reconverted / "
+  "merge_last_default_wins / merge_last_default_sound on Merge.common (model of _merge_common_attributes: every override default is re-converted by the final narrower kind or the merge is an error; a stored Value is never reused). "
   "The model is tied to the code by evaluating Values.convert_value inside Coq on ~8.5k (kind, value) cases per quick run against the real classes (direct convert_value and property_from_data with `default`), the "
-  "oracle record being instantiated from the real float()/isoparse/UUID results; stage C generates documents with defaults in model properties and query/header/cookie parameters, executes the generated code in a fresh "
+  "oracle record being instantiated from the real float()/isoparse/UUID results; stage B also covers defaults next to references (every falsy and ill-typed falsy value) and merge_properties on same-class / narrowing pairs (vs Merge.merge); stage C generates documents with defaults in model properties and query/header/cookie parameters (inline, behind single-$ref wrappers, and composed through allOf[$ref Base, $ref Ext] in both orders), executes the generated code in a fresh "
   "interpreter (attribute after no-arg construction, to_dict, inspect.signature defaults) and classifies every deviation by the Coq guard into listed findings or VIOLATION.",
   "Trusted: Coq kernel+vm_compute; the oracles float()/str(float)/isoparse/UUID (only their tabulated results and the token class of str(float), sampled each run); the model's string-literal lexer does not decode "
-  "\\x/\\u escapes, so defaults that are not repr-printable (class 9) and list/dict defaults of Any are covered by correspondence+oracle only; $ref/allOf re-conversion routes are exercised by C15/C20, not proved here.",
+  "\\x/\\u escapes, so defaults that are not repr-printable (class 9) and list/dict defaults of Any are covered by correspondence+oracle only; the stale first-member default of an enum/enum merge that switches class is the listed finding merge_enum_default_stale_class.",
   "Coq proof (case analysis over kinds x JSON constructors, literal round-trip lemmas) + in-Coq differential correspondence + executed-client oracle", "4/C13")
 
 claim("C14",
@@ -100,12 +103,12 @@ claim("C05",
   "(canary probes, tokenize / TOML scanner); all_sites_safe : forallb site_safe gen_sites = true by vm_compute; site_sound : for every acceptable site and every payload inside its computable slot_guard the "
   "emitted text re-lexes (PyLit lexers) to exactly the payload / the sanitised identifier with the lexer resuming after the literal. Sites that are safe only on a narrow domain are listed one by one in "
   "Sites.known_narrow with a finding id and a ..._refuted witness (desc_code_exec, meta_injection, path_injection, content_type_injection, const_fstring; class-level: name_backslash, nul_char, "
-  "linesep_newline, default_not_verbatim, xid_gap); a new raw interpolation / comment / code context / unescaped path makes a regenerated row unacceptable and the obligation all_sites_safe fails. "
+  "linesep_newline, default_not_verbatim, xid_gap, raw_fallback for the raw-name-fallback sanitiser class SSanitize; validated path-parameter names are class SRejects); every named thing is probed once per schema SHAPE that takes a different parser path (inline scalar/object/enum, direct $ref to model/enum, allOf/oneOf/anyOf wrappers, unions, arrays of $ref/inline, allOf members, additionalProperties/items objects, parameters per location incl. path-item and component parameters) and colliding name pairs exercise PythonIdentifier(skip_snake_case=True); a new raw interpolation / comment / code context / unescaped path makes a regenerated row unacceptable and the obligation all_sites_safe fails. "
   "Correspondence (evaluated inside Coq): escape_dq, py_repr, lex_string, safe_docstring (against the REAL Jinja macro), lex_docstring, TOML guard vs utils.remove_string_escapes / repr / tokenize+"
-  "ast.literal_eval / tomllib on ~5.8k hostile cases per quick run (61k thorough); the site table vs a second, differently shaped probe document. Oracle: ~800 generated trees per quick run (emitted slots x 14 payload "
-  "classes x metadata flavours / option settings - in the quick tier two seed-chosen representatives per site signature get all classes, the rest four - packed absent slots, random multi-slot combinations; ~2.4k trees thorough): compile()/tomllib, AST shape equal to the canary-only rendering, payload marker only inside string "
+  "ast.literal_eval / tomllib on ~5.8k hostile cases per quick run (61k thorough); the site table vs a second, differently shaped probe document. Oracle: ~970 generated trees per quick run (110 emitted slots x 15 payload "
+  "classes x metadata flavours / option settings - in the quick tier one seed-chosen representative per site signature gets all classes, every other slot four (double quote, triple quote, trailing backslash, symbols) - packed absent slots, random multi-slot combinations; ~4.4k trees thorough): compile()/tomllib, AST shape equal to the canary-only rendering, payload marker only inside string "
   "tokens or sanitised identifiers, run-time-meaningful constants equal to the document text; every failure is classified by evaluating the Coq slot_guard of the sites of that slot in that file.",
-  "Trusted: Coq kernel+vm_compute; translator gen_sites.py and the probe grammar harness/lib/probe.py (slot coverage = 130 probed slots; 29 pydantic str positions it does not fill are listed in evidence as "
+  "Trusted: Coq kernel+vm_compute; translator gen_sites.py and the probe grammar harness/lib/probe.py (slot coverage = 199 probed slots, 436 table rows; 29 pydantic str positions it does not fill are listed in evidence as "
   "unreached_fields); the sanitiser class of a site is inferred from one benign-specials probe and confirmed only by the oracle; CPython's tokenizer beyond string literals, f-string replacement fields "
   "(modelled as: a brace in document text is code), Jinja wordwrap/indent (assumed whitespace-only) and octal/\\x/\\u/\\N escape decoding are not modelled (lexer answers None; repr round trip proved for "
   "printable strings only); identifier VALIDITY of ClassName / enum keys rests on C09 (here only the character-class theorem); Jinja's indent filter is modelled only through the no_linesep guard conjunct; "
@@ -140,9 +143,9 @@ claim("C15",
   "collect_names / collect_required (the composed class has exactly the members' property names, each once, required iff some declaration is), merge_nonvacuous; refutation witnesses for the guard's complement and for "
   "what the theorems deliberately do not claim: merge_first_wins_refuted, collect_order_refuted (three declarations: fold order matters), merge_enum_default_stale_refuted; process_collect / process_names_exact / "
   "process_required / process_doc_names_exact (ProcPropsThm.v: the full loop of _process_properties including the python-name conflict scan of C09 collects exactly what collect collects; correspondence in harness/props/c09.py). The model is tied to the code on every run by "
-  "(1) ~24k (quick) / ~90k (thorough) calls of the real merge_properties on real property objects built by property_from_data - every ordered pair of 46 variants covering the 16 kinds x required x default, plus "
+  "(1) ~24k (quick) / ~90k (thorough) calls of the real merge_properties on real property objects built by property_from_data - every ordered pair of 56 variants covering the 16 kinds (incl. enums whose generated member names coincide while the values differ: case / punctuation / VALUE_n) x required x default, plus "
   "hostile defaults - compared inside Coq with Merge.merge (MOk/MErr/MCrash, kind, required, default code + raw value, description/example, enum table / literal set / item / const / union / model identity), and "
-  "(2) the real _process_properties on random allOf lists (referenced, composed and inline members, required lists) compared with Merge.collect. Stage C generates exhaustive two-member and random chained documents "
+  "(2) the real _process_properties on random allOf lists (referenced, composed and inline members, members carrying only `required`, required lists) compared with Merge.collect. Stage C generates exhaustive two-member and random chained documents "
   "(parents declared after children) in both member orders and checks the composed class in a fresh interpreter: attributes = union of member properties, required = OR over members, same annotation in both orders or a "
   "diagnostic in both, narrowest annotation, values outside the smaller enum refused, round trip of instances valid against all members, member classes unchanged by composition. Seven defect classes of the unchanged "
   "code are listed as known findings and classified by the Coq guard / exact structural tests.",
